@@ -290,23 +290,25 @@ def leastCoeffVar (dfs : List DF) (width : Nat) : Option Nat :=
       | none => some p
       | some b => if p.1 < b.1 then some p else some b) none |>.map (·.2)
 
-def optMin (a : Option Int) (c : Int) : Option Int :=
-  match a with | none => some c | some u => if c < u then some c else some u
-def optMax (a : Option Int) (c : Int) : Option Int :=
-  match a with | none => some c | some l => if c > l then some c else some l
+def listMin : List Int → Option Int
+  | [] => none
+  | a :: rest => some (rest.foldl min a)
+def listMax : List Int → Option Int
+  | [] => none
+  | a :: rest => some (rest.foldl max a)
 
-/-- `extend_vmap`: bounds for variable `i` from every factoid of `db` under `vmap`;
-returns the assignment extended with the least admissible value. -/
+/-- `extend_vmap`: bounds for variable `i` from every factoid of `db` under `vmap`
+(`upper` = least `⌊c0 / -coeff⌋` over the factoids with negative coefficient, `lower` = greatest
+`⌈-c0 / coeff⌉` over those with positive coefficient; the Python loop computes the same minimum and
+maximum one factoid at a time); returns the assignment extended with the least admissible value. -/
 def extendVmap (dfs : List DF) (i : Nat) (s : Store) : Except Err Store :=
-  let bounds := dfs.foldl (fun (lu : Option Int × Option Int) df =>
-    let c0 := evalExcept df.factoid 0 s i
-    let coeff := coeffAt df.factoid i
-    if coeff < 0 then (lu.1, optMin lu.2 (c0 / (-coeff)))
-    else if coeff > 0 then (optMax lu.1 (-(c0 / coeff)), lu.2)
-    else lu) (none, none)
-  match bounds with
-  | (some lower, some upper) => if lower ≤ upper then .ok (s.set i lower) else .error .assertion
-  | _ => .error .type   -- comparison with None
+  let uppers := (dfs.filter fun df => decide (coeffAt df.factoid i < 0)).map fun df =>
+    evalExcept df.factoid 0 s i / (-(coeffAt df.factoid i))
+  let lowers := (dfs.filter fun df => decide (coeffAt df.factoid i > 0)).map fun df =>
+    -(evalExcept df.factoid 0 s i / coeffAt df.factoid i)
+  match listMax lowers, listMin uppers with
+  | some lower, some upper => if lower ≤ upper then .ok (s.set i lower) else .error .assertion
+  | _, _ => .error .type   -- comparison with None
 
 def zeroUpto (n : Nat) : Store := (List.range (n + 1)).map fun i => (i, 0)
 
@@ -353,13 +355,6 @@ def extendCrossProduct (db : DB) (isExact : Bool) (i : Nat) : List DF → List D
     match crossUppers db isExact i low uppers with
     | .db db' => extendCrossProduct db' isExact i rest uppers
     | r => r
-
-def listMin : List Int → Option Int
-  | [] => none
-  | a :: rest => some (rest.foldl min a)
-def listMax : List Int → Option Int
-  | [] => none
-  | a :: rest => some (rest.foldl max a)
 
 def extendSat (dfs : List DF) (v : Nat) : Result → Result
   | .sat s => match extendVmap dfs v s with
@@ -419,9 +414,10 @@ def solve : Nat → Mode → XP → Nat → Result
       match var? with
       | none => .error .type
       | some v =>
-        let uppers := dfs.filter fun df => decide (Py.idx df.factoid v < 0)
-        let lowers := dfs.filter fun df => decide (Py.idx df.factoid v > 0)
-        let newDb := (dfs.filter fun df => decide (Py.idx df.factoid v = 0)).foldl insertDb []
+        -- `f[var_to_elim]` indexes the whole coefficient tuple; `var_to_elim < width - 1`, so it is the key entry
+        let uppers := dfs.filter fun df => decide (coeffAt df.factoid v < 0)
+        let lowers := dfs.filter fun df => decide (coeffAt df.factoid v > 0)
+        let newDb := (dfs.filter fun df => decide (coeffAt df.factoid v = 0)).foldl insertDb []
         elimDispatch (fun m x => solve fuel m x width) em isExact dfs v
           (extendCrossProduct newDb true v lowers uppers) (extendCrossProduct newDb false v lowers uppers)
 
